@@ -332,6 +332,168 @@ def fails(spec, beam):
     return v == "violation"
 
 
+# ---------------------------------------------------------------- vectorised strengths containing exact zeros
+VEC_PLAN = [("Quadrupole", "cheetah"), ("Dipole", "cheetah"), ("RBend", "cheetah"), ("Solenoid", "cheetah"), ("HorizontalCorrector", "cheetah"),
+            ("VerticalCorrector", "cheetah"), ("Cavity", "cheetah"), ("Quadrupole", "bmadx"), ("TransverseDeflectingCavity", "bmadx")]
+VEC_POOL = {"k1": [2.0, -3.0, 0.5, 4.2, -10.0, 1e-3], "bend_angle": [0.1, -0.02, 0.3, 0.01], "bend_k1": [0.5, -1.0, 2.0], "k": [0.5, -1.0, 3.0],
+            "cor_angle": [1e-3, -2e-3, 0.01], "tdc_voltage": [1e5, 1e6, -1e6]}
+
+
+def _zero_mix(rng, B, pool, zero_at):
+    """B strengths: exact 0.0 at the indices zero_at, non-zero values from the pool elsewhere (at least one of each)"""
+    return [0.0 if i in zero_at else rng.choice(pool) for i in range(B)]
+
+
+def gen_vec_element(rng, cls, method, lkind, energy):
+    """Element whose strength tensor(s) hold a batch of B settings mixing exact zeros with non-zero values (e.g. a scan
+    through 0); every other parameter is a scalar.  spec["vec"] names the vectorised keyword arguments."""
+    spec = gen_element(rng, cls, method, lkind)
+    kw = spec["kw"]
+    B = rng.choice([2, 2, 3, 4])
+    zero_at = set(rng.sample(range(B), rng.randrange(1, B)))          # 1 .. B-1 zero entries
+    if cls == "Quadrupole":
+        kw["k1"] = _zero_mix(rng, B, VEC_POOL["k1"], zero_at)
+        vec = ["k1"]
+    elif cls in ("Dipole", "RBend"):
+        # length == 0 with a non-zero angle is the 'thin corrector' branch of Dipole.transfer_map (finding F4: writes the angle
+        # into [2][6]; with a vectorised angle `R[..., 2, 6] = self.angle` raises because R has the length's batch shape):
+        # a defective region listed elsewhere, so at zero length only the gradient is vectorised
+        mode = "k1" if float(kw["length"]) == 0.0 else rng.choice(["angle", "k1", "k1", "both"])
+        vec = []
+        if mode in ("angle", "both"):
+            # zero wherever the entry is switched off; elsewhere a bend angle, or 0 with a gradient only
+            kw["angle"] = [0.0 if (i in zero_at or (mode == "both" and rng.random() < 0.3)) else rng.choice(VEC_POOL["bend_angle"]) for i in range(B)]
+            vec.append("angle")
+        if mode in ("k1", "both"):
+            kw["k1"] = [0.0 if i in zero_at else (rng.choice(VEC_POOL["bend_k1"]) if (mode == "k1" or kw["angle"][i] == 0.0 or rng.random() < 0.5) else 0.0)
+                        for i in range(B)]
+            vec.append("k1")
+    elif cls == "Solenoid":
+        kw["k"] = _zero_mix(rng, B, VEC_POOL["k"], zero_at)
+        vec = ["k"]
+    elif cls in ("HorizontalCorrector", "VerticalCorrector"):
+        kw["angle"] = _zero_mix(rng, B, VEC_POOL["cor_angle"], zero_at)
+        vec = ["angle"]
+    elif cls == "Cavity":
+        # non-accelerating settings only: a batch mixing accelerating and non-accelerating entries is NaN in the latter by the
+        # whole-tensor branch `torch.any(delta_energy > 0)` (finding F5, listed for C04), and at |cos(phase)| ~ 0 every
+        # non-zero voltage is NaN [F90]
+        if abs(math.cos(math.radians(float(kw["phase"])))) < 1e-3:
+            kw["phase"] = rng.choice([30.0, 150.0, -20.0])
+        sgn = -1.0 if math.cos(math.radians(float(kw["phase"]))) > 0 else 1.0
+        kw["voltage"] = _zero_mix(rng, B, [float(f"{sgn * f * energy:.4e}") for f in (0.01, 0.1, 0.3)], zero_at)
+        vec = ["voltage"]
+    elif cls == "TransverseDeflectingCavity":
+        kw["voltage"] = _zero_mix(rng, B, VEC_POOL["tdc_voltage"], zero_at)
+        vec = ["voltage"]
+    else:
+        raise ValueError(cls)
+    spec["vec"] = vec
+    return spec
+
+
+def entry_spec(spec, i):
+    """the scalar element of batch entry i of a vectorised spec"""
+    kw = dict(spec["kw"])
+    for k in spec["vec"]:
+        kw[k] = kw[k][i]
+    return {"cls": spec["cls"], "name": spec.get("name", "e"), "kw": kw}
+
+
+def vec_batch(spec):
+    return len(spec["kw"][spec["vec"][0]])
+
+
+def vec_zero_entries(spec):
+    return [i for i in range(vec_batch(spec)) if all(float(spec["kw"][k][i]) == 0.0 for k in spec["vec"])]
+
+
+def classify_vec(spec, beam):
+    """Track the beam through the vectorised element; every batch entry whose strengths are all exactly 0 must be finite and
+    equal Drift(same length, same method).track(beam) within the tolerances of the scalar case.
+    -> list of (verdict, what, diffs, entry) for the zero entries that are not ok (verdict known | violation)."""
+    B = vec_batch(spec)
+    el = realgen.build(spec)
+    b = realgen.build_beam(beam)
+    out = beam_arrays(el.track(b))
+    ref = beam_arrays(realgen.build(drift_spec(spec)).track(b))
+    res = []
+    for i in vec_zero_entries(spec):
+        oi, shape_bad = {}, None
+        for k, v in out.items():
+            if v.dim() == ref[k].dim() + 1 and v.shape[0] == B:
+                oi[k] = v[i]
+            elif v.dim() == ref[k].dim():
+                oi[k] = v                          # not vectorised by the element (charges, survival probabilities)
+            else:
+                shape_bad = (k, list(v.shape), list(ref[k].shape))
+        if shape_bad:
+            res.append(("violation", f"outgoing {shape_bad[0]} of the vectorised element has shape {shape_bad[1]} (batch {B}, scalar shape {shape_bad[2]})", [], i))
+            continue
+        v, what, diffs = classify(entry_spec(spec, i), beam, dict(out=oi, ref=ref))
+        if v != "ok":
+            if v == "violation":
+                what = f"batch entry {i} (all strengths exactly 0) of the vectorised element: " + what
+            res.append((v, what, diffs, i))
+    return res
+
+
+def fails_vec(spec, beam):
+    try:
+        return any(r[0] == "violation" for r in classify_vec(spec, beam))
+    except Exception:
+        return True
+
+
+def shrink_vec(spec, beam):
+    spec, beam = shrink(spec, beam, fails_vec)
+    spec = json.loads(json.dumps(spec))
+    B = vec_batch(spec)
+    while B > 2:            # drop batch entries while the failure persists
+        for i in range(B):
+            s2 = json.loads(json.dumps(spec))
+            for k in s2["vec"]:
+                del s2["kw"][k][i]
+            if vec_zero_entries(s2) and len(vec_zero_entries(s2)) < B - 1 and fails_vec(s2, beam):
+                spec = s2
+                break
+        else:
+            break
+        B = vec_batch(spec)
+    return spec, beam
+
+
+def vectorised(run, reps):
+    """the oracle on vectorised strength settings: for every class whose strength is a tensor x method x beam type x length kind"""
+    new = []
+    for _ in range(reps):
+        for cls, meth in VEC_PLAN:
+            for bt in (("particle",) if meth == "bmadx" else ("particle", "parameter")):
+                for lk in ("zero", "tiny", "typical", "typical"):
+                    energy = gen_energy(run.rng)
+                    spec = gen_vec_element(run.rng, cls, meth, lk, energy)
+                    beam = gen_beam(run.rng, bt, energy)
+                    run.add_case(["vec", spec, beam], True)
+                    run.count(f"vec_{cls}_{meth}_{bt}")
+                    run.count("vec_batch_%d_zero_entries_%d" % (vec_batch(spec), len(vec_zero_entries(spec))))
+                    try:
+                        res = classify_vec(spec, beam)
+                    except Exception as ex:
+                        run.count("vec_exception_" + cls)
+                        new.append({"kind": "vectorised", "spec": spec, "beam": beam,
+                                    "what": f"exception for a vectorised strength containing exact zeros: {type(ex).__name__}: {ex}"})
+                        continue
+                    for v, what, diffs, i in res:
+                        if v == "known":
+                            run.known(what)
+                            run.count("vec_known_finding_entries")
+                        else:
+                            new.append({"kind": "vectorised", "spec": spec, "beam": beam, "entry": i, "what": what, "diffs": diffs[:6]})
+                            if what.endswith(F3_BACK):
+                                new[-1]["finding"] = "F3"
+    return new
+
+
 # ---------------------------------------------------------------- continuity strength -> 0
 def continuity(run, n_per_class, ks):
     """|out(s) - out(0)| <= C |s| (+ tolerance at 0) along s = +-10^-k; for the quadrupole C is the proved Lipschitz constant."""
@@ -578,7 +740,8 @@ def main(tier, replay=None):
     run.cov["rule"] = ("every class with a strength (Quadrupole k1, Dipole/RBend angle+k1, Solenoid k, H/V corrector angle, Cavity and TDC voltage, Undulator) "
                        "at zero strength x tracking method (cheetah; bmadx where supported) x beam type x length in {0, tiny, typical} x energy log-uniform "
                        "1.5 MeV..50 GeV x random tilt/misalignment/edge angles/fringe/gap/phase/frequency/num_steps: Element.track(b) vs Drift(L, same method).track(b) "
-                       "on all coordinates, energy, charges; plus continuity sequences strength=+-10^-k. Non-trivial = length>0 or a non-default non-strength parameter; "
+                       "on all coordinates, energy, charges; the same for the exactly-zero entries of VECTORISED strengths (batch of 2-4 settings mixing exact zeros with "
+                       "non-zero values: k1, bend angle and/or k1, solenoid k, corrector angle, Cavity / TDC voltage); plus continuity sequences strength=+-10^-k. Non-trivial = length>0 or a non-default non-strength parameter; "
                        "distinct by full case content.")
     STATE["f3_known"] = f3_known()
     if replay:
@@ -639,6 +802,7 @@ def main(tier, replay=None):
             corr_cases.append((spec, energy, beam))
     run.sample({"spec": plan and spec, "beam": beam})
 
+    new += vectorised(run, 10 if thorough else 2)
     new += continuity(run, 3 if thorough else 1, range(2, 11))
 
     corr_fail = []
@@ -680,7 +844,9 @@ def main(tier, replay=None):
         corr_new.append((idx, what, err))
     regressed = replay_known(run)
     new = [it for it in new if not (it.get("finding") in regressed)]
-    run.cov["tested_only"] = ["Bmad-X Quadrupole(k1=0) vs Bmad-X Drift: third-order bound L|px/P|u on x,y and L u^2 on z (tolerance justified in coord_tol, not proved in Coq)",
+    run.cov["tested_only"] = ["vectorised strengths: the switched-off entries of a batch mixing exact zeros with non-zero strengths are finite and equal the Drift "
+                              "(the Coq model is per setting; entry independence is property C04)",
+                              "Bmad-X Quadrupole(k1=0) vs Bmad-X Drift: third-order bound L|px/P|u on x,y and L u^2 on z (tolerance justified in coord_tol, not proved in Coq)",
                               "TransverseDeflectingCavity(voltage=0) vs Bmad-X Drift (proof belongs to C07)",
                               "ParameterBeam covariance closeness (the Coq theorem covers the map and particles; cov checked numerically with the derived bound)",
                               "continuity along strength=+-10^-k for classes other than the cheetah Quadrupole (generous Lipschitz constant 20(1+L)^3)",
@@ -697,6 +863,18 @@ def main(tier, replay=None):
                 item["diffs"] = diffs[:6]
             except Exception:
                 pass
+        elif item.get("kind") == "vectorised":
+            try:
+                s2, b2 = shrink_vec(item["spec"], item["beam"])
+                res = [r for r in classify_vec(s2, b2) if r[0] == "violation"]
+                if res:
+                    item = dict(item, spec=s2, beam=b2, entry=res[0][3], what=res[0][1], diffs=res[0][2][:6])
+            except Exception:
+                pass
+            item["relation"] = ("every batch entry of Element(strength=[..., 0, ...]).track(b) whose strengths are exactly 0 is finite and equals "
+                                "Drift(length, same tracking_method).track(b) within the derived tolerance of the scalar case")
+            run.violation(item)
+            return run.finish("proof")
         item["relation"] = "Element(strength=0).track(b) == Drift(length, same tracking_method).track(b) within the derived tolerance; finite; continuous at 0"
         run.violation(item)
     elif corr_new:
@@ -722,9 +900,18 @@ def do_replay(run, path):
         ok = finite(o) and float(D[i, j]) <= r.get("allowed", 0.0)
         print("replay:", "property holds on this input" if ok else f"property FAILS on this input: |out(s)-out(0)|[{i},{j}] = {float(D[i, j])} > {r.get('allowed')}")
         return 0 if ok else 1
-    if "spec" not in r or r["spec"] is None:
-        print("replay: no input recorded (", r.get("broken"), ")")
-        return 1
+    if r.get("kind") == "vectorised":
+        try:
+            res = classify_vec(r["spec"], r["beam"])
+        except Exception as ex:
+            print(f"replay: property FAILS on this input: exception {type(ex).__name__}: {ex}")
+            return 1
+        bad = [x for x in res if x[0] == "violation"]
+        for x in res:
+            if x[0] == "known":
+                print("replay: KNOWN-FINDING:", x[1])
+        print("replay:", "property holds on this input" if not bad else f"property FAILS on this input: {bad[0][1]} {bad[0][2][:4]}")
+        return 1 if bad else 0
     beam = r.get("beam") or gen_beam(run.rng, "particle", r.get("energy", 1e8))
     v, what, diffs = classify(r["spec"], beam, run_case(r["spec"], beam))
     print("replay:", "property holds on this input" if v == "ok" else f"{'KNOWN-FINDING' if v == 'known' else 'property FAILS on this input'}: {what} {diffs[:4]}")
